@@ -22,6 +22,7 @@ int main(void) {
                 for(char *o = strtok_r(ops, ",", &save); o; o = strtok_r(NULL, ",", &save)) {
                     int r;
                     if(o[0] == 't') r = zck_set_ioption(zck, ZCK_VAL_HEADER_HASH_TYPE, atoll(o + 1));
+                    else if(o[0] == 'e') r = zck_clear_error(zck);
                     else if(o[0] == 's') r = zck_set_ioption(zck, ZCK_VAL_HEADER_LENGTH, atoll(o + 1));
                     else { size_t sl; unsigned char *s = zh_unhex(o + 1, &sl);
                            r = zck_set_soption(zck, ZCK_VAL_HEADER_DIGEST, (char*)s, sl); free(s); }
